@@ -329,11 +329,11 @@ def run(ctx: Ctx):
     U.cap_violations(ctx)
     rng = ctx.rng
     reqs = []
-    per = ctx.scale(5, 200)
+    per = ctx.scale(8, 200)
     for opk, cause in CAUSES:
         for _ in range(per):
             run_case(ctx, rng, reqs, opk, cause)
-    for _ in range(ctx.scale(150, 6000)):
+    for _ in range(ctx.scale(300, 8000)):
         run_case(ctx, rng, reqs)
     ctx.impl_traces += len(reqs)
     if ctx.driver_ok and reqs:
